@@ -180,12 +180,18 @@ def eq(a: V, b: V):
         ta = SeqOf(elem).pack(a)
         tb = SeqOf(elem).pack(b)
         return ta == tb
+    for x, y in ((a, b), (b, a)):
+        if isinstance(x, VDict) and isinstance(y, VRec) and y.ty.as_dict and not getattr(y.ty, "optkeys", False):
+            from .ty import recdict_term
+            return x.t == recdict_term(y)  # symbolic dict == dict display with constant keys
     if isinstance(a, VRec) and isinstance(b, VRec):
         if set(a.fields) != set(b.fields):
             return z3.BoolVal(False)
         return z3.And([eq(a.fields[k], b.fields[k]) for k in a.fields]) if a.fields else z3.BoolVal(True)
     if isinstance(a, VExc) and isinstance(b, VExc):
         return z3.BoolVal(a is b)
+    if isinstance(a, VClass) and isinstance(b, VClass):
+        return z3.BoolVal(a is b or getattr(a.info, "key", a.info) == getattr(b.info, "key", b.info))
     # different kinds of values are never equal in Python (int vs str, ...)
     return z3.BoolVal(False)
 
